@@ -313,6 +313,26 @@ ALLOW_HASHIT = {
 }
 
 
+# the reviewed iterations of each table entry, as "<field(s) the receiver derives from>:<method>" (filled from the pinned tree)
+ALLOW_HASHIT_WHAT = {
+    "<shuttle_schedulers::pct::PctScheduler as shuttle_engine::scheduler::Scheduler>::new_execution": {"priorities:iter"},
+    "shuttle_schedulers::urw::UrwRandomScheduler::initialize_estimates_from_observed_counts": {"signature_event_counts:keys", "signature_event_counts,signature_parents:values",
+                                                                                               "signature_event_counts:values"},
+    "shuttle_std::sync::barrier::Barrier::wait": {"state,waiters:drain", "waiters:drain"},
+}
+
+
+def hash_iteration_allowed(prog, b, s, t, callee):
+    root = kinds.root_fn(prog, b.nkey)
+    return root in ALLOW_HASHIT and hash_iteration_what(b, s, t, callee) in ALLOW_HASHIT_WHAT.get(root, ())
+
+
+def hash_iteration_what(b, s, t, callee):
+    labs = FlowSlicer(b, control=False).operand_labels(t["args"][0], s) if t.get("args") else set()
+    flds = sorted({l[6:].rsplit(".", 1)[-1] for l in labs if l.startswith("field:") and not l.endswith((".0", ".1"))})
+    return "%s:%s" % (",".join(flds) or "?", callee.rsplit("::", 1)[-1])
+
+
 def r6_ambient(ctx):
     prog = ctx.prog
     n_calls = 0
@@ -336,12 +356,15 @@ def r6_ambient(ctx):
                            ("`%s` calls `%s`: ambient nondeterminism on code that runs during an execution is not captured by the recorded schedule" % (root, c)),
                            loc=b.loc(s), nontrivial=not ok)
                 if HASHIT.search(c):
-                    key = (root, "hash-iteration")
+                    # which collection is iterated (last field the receiver derives from) and how: a table entry covers the iterations that
+                    # were reviewed, not every later iteration in the same function
+                    how = hash_iteration_what(b, s, t, c)
+                    key = (root, "hash-iteration", how)
                     if key in seen:
                         continue
                     seen.add(key)
-                    ok = root in ALLOW_HASHIT
-                    ctx.ob("C01.R6", "hash-order|%s" % root, ok,
+                    ok = root in ALLOW_HASHIT and (root not in ALLOW_HASHIT_WHAT or how in ALLOW_HASHIT_WHAT[root])
+                    ctx.ob("C01.R6", "hash-order|%s|%s" % (root, how), ok,
                            ("`%s` iterates a default-hasher collection — allowed: %s" % (root, ALLOW_HASHIT[root])) if ok else
                            ("`%s` iterates a std HashMap/HashSet (`%s`): the iteration order depends on a per-process random hasher state and "
                             "is not reproduced by replaying the schedule" % (root, c)), loc=b.loc(s), nontrivial=not ok)
